@@ -676,12 +676,22 @@ def _finish_cut(asm, c, text, hits, kv, secs, kind):
                 # every occurrence of the anchor gets the same lines (e.g. one hint that fits every `return;`), so that an
                 # added or removed occurrence neither shifts nor loses a hint
                 t0b = t0.replace('_opt', '')
+                # from="<anchor A>" / to="<anchor B>": only the occurrences that lie between the (first occurrences of the) two
+                # region anchors, themselves unique statements of the function -- "every occurrence in this part of the function"
+                _pos, _kvr = _kv(tk[3:])
+                lo_ = _find_code_occurrence(text, _kvr['from'], 1, 'region start of %s' % fname) if 'from' in _kvr else 0
+                hi_ = _find_code_occurrence(text, _kvr['to'], 1, 'region end of %s' % fname) if 'to' in _kvr else len(text)
                 kk = 1
+                nhit = 0
                 while True:
                     try:
                         idx = _find_code_occurrence(text, tk[1], kk, '%s of %s' % (t0, fname))
                     except CutError:
                         break
+                    if not (lo_ <= idx < hi_):
+                        kk += 1
+                        continue
+                    nhit += 1
                     if t0b == 'before':
                         at_ = text.rfind('\n', 0, idx) + 1
                     else:
@@ -693,7 +703,7 @@ def _finish_cut(asm, c, text, hits, kv, secs, kind):
                         if ck in ('ensures', 'invariant', 'invariant_except_break', 'assert', 'decreases'):
                             asm.clauses.append({'fn': fname, 'at': lab_, 'kind': ck, 'text': ' '.join(ctext.split())[:300], 'tmpl_line': lines_[0][0]})
                     kk += 1
-                if kk == 1 and not t0.endswith('_opt'):
+                if nhit == 0 and not t0.endswith('_opt'):
                     raise CutError('anchor lost: %s %r of %s' % (t0, tk[1], fname))
                 continue
             k = int(tk[2]) if len(tk) > 2 else 1
